@@ -387,7 +387,7 @@ Third:
 			switch tok = l.tr(l.scanRawToken()); {
 			case tok == Do:
 				goto Do
-			case !l.subst():
+			case tok < 0 || !l.subst():
 				return l.lexToken(tok)
 			}
 		}
@@ -408,7 +408,8 @@ Third:
 		case Do:
 			goto Do
 		default:
-			if l.subst() {
+			// not after an error: the word is incomplete
+			if tok >= 0 && l.subst() {
 				goto Third
 			}
 			return l.lexToken(tok)
@@ -432,7 +433,7 @@ In:
 				switch tok = l.tr(l.scanRawToken()); {
 				case tok == Do:
 					goto Do
-				case !l.subst():
+				case tok < 0 || !l.subst():
 					return l.lexToken(tok)
 				}
 			}
@@ -470,7 +471,7 @@ func (l *lexer) lexCase() action {
 Third:
 	// in
 	if tok := l.scanRawToken(); l.tr(tok) != In {
-		if l.subst() {
+		if tok >= 0 && l.subst() {
 			goto Third
 		}
 		return l.lexToken(tok)
